@@ -57,7 +57,7 @@ def edit_source(r, src, state, force=None, force_on=None):
 
     def fresh_mt(rel, size, mt, step):
         return mt if mt > 0 else 10 * NS
-    kinds = [r.choice(["create", "modsize", "samesize_later", "samesize_earlier", "delete", "rename", "dir2file", "file2dir", "create"]) for _ in range(r.randrange(1, 4))]
+    kinds = [r.choice(["create", "modsize", "samesize_later", "samesize_earlier", "samesize_subsecond", "delete", "rename", "dir2file", "file2dir", "create"]) for _ in range(r.randrange(1, 4))]
     if force and files:
         kinds.append(force)
     for kind in kinds:
@@ -68,7 +68,7 @@ def edit_source(r, src, state, force=None, force_on=None):
                 continue
             state[rel] = (r.randrange(1 << 30), r.choice([0, 7, 5000, 70000]), fresh_mt(rel, None, r.randrange(3_000_000, 5_000_000) * NS, 0))
             log.append(("create", rel))
-        elif kind in ("modsize", "samesize_later", "samesize_earlier"):
+        elif kind in ("modsize", "samesize_later", "samesize_earlier", "samesize_subsecond"):
             pool = [f for f in files if f in force_on] if (force_on and kind == force and kind is kinds[-1]) else files
             rel = r.choice(pool or files)
             if rel not in state:
@@ -77,6 +77,9 @@ def edit_source(r, src, state, force=None, force_on=None):
             if kind == "modsize":
                 nsz = size + r.choice([1, 100, 4096])
                 state[rel] = (r.randrange(1 << 30), nsz, fresh_mt(rel, nsz, mt + r.choice([0, 5 * NS]), +NS))
+            elif kind == "samesize_subsecond":
+                # same size, same whole second, another nanosecond part (and other bytes): still another (mtime, size)
+                state[rel] = (r.randrange(1 << 30), size, mt - mt % NS + (mt % NS + r.choice([1, 1000, 250_000_000, 499_999_999])) % NS)
             elif kind == "samesize_later":
                 state[rel] = (r.randrange(1 << 30), size, fresh_mt(rel, size, mt + r.choice([2 * NS, 86400 * NS]), +NS))
             else:
@@ -199,7 +202,7 @@ def run_history(sc, seed, i, known, stats):
     for k in range(1, steps + 1):
         # database histories always contain an older same-size version put back (the lookup key must be exact)
         synced = [p for p in state if not p.startswith("\0") and os.path.isfile(os.path.join(db, p))]
-        history.append(edit_source(r, src, state, force=("samesize_earlier" if ("db" in name or name == "all") and k >= 2 else
+        history.append(edit_source(r, src, state, force=(("samesize_earlier" if k % 2 == 0 else "samesize_subsecond") if ("db" in name or name == "all") and k >= 2 else
                                                          (r.choice(["samesize_later", "modsize"]) if name == "state" and k >= 2 else None)),
                                    force_on=synced if name == "state" else None))
         fl = {"j": 1}
